@@ -15,7 +15,7 @@ def run(tier, seed):
                          'slots, live slots off the scratch rows) every live slot holds its gate-by-gate value after every op, hence every captured line after the last. '
                          'Tier B (bounded): translation of the netlist into ops, assign/capture/state transfer/cycle and the composition to netlist level are checked '
                          'by running the real LogicSim against the gate-by-gate oracle on a stated circuit space.')
-    res.report = verify(logic_sim_c.targets(ms=(2,)) + logic_sim_c.composition_targets(ms=(2,)) + [logic_sim_c.lut_lemmas(), logic_sim_c.lifting_lemmas()] + translate_c.targets_node() + logic_io_c.targets((1,)),
+    res.report = verify(logic_sim_c.targets(ms=(2,)) + logic_sim_c.composition_targets(ms=(2,)) + [logic_sim_c.lut_lemmas(), logic_sim_c.lifting_lemmas()] + translate_c.targets_node() + logic_io_c.targets((1,)) + logic_io_c.targets_cycle(),
                         timeout_s=20 if tier == 'quick' else 120)
     from bounded import simops_drv
     res.bounded = [simops_drv.part(tier, seed, which=('map',), pid='C01'), logic_drv.logic_part('C01', (2,), tier, seed, with_cycles=True,
@@ -23,7 +23,7 @@ def run(tier, seed):
     res.assumptions = ['tier P requires (op codes among the 33 primitives, locations in range) hold for real SimOps instances: bounded part only',
                        'SimOps.__init__ translation: the body of the per-node loop is under contract for one symbolic node (which rows are appended: interface BUF1/INV1 rows from the interface '
                        'input slot, fork BUF1 rows unless stripped, one row per cell with the selected primitive, out0 or tmp, in0..in3 or the zero slot, the a_ctrl row of the output); that '
-                       'the node sequence is a topological order, the stems table and the composition cycle() = (s_to_c; c_prop; c_to_s; s_ppo_to_ppi)^k: bounded part only; s_to_c / c_to_s / s_ppo_to_ppi are under contract with numpy gather / scatter as assumed element-wise contracts (index tables pairwise distinct)',
+                       'the node sequence is a topological order, the loop over all nodes: bounded part only; cycle(k) is proved to be k times (s_to_c; c_prop(inject_cb); c_to_s; s_ppo_to_ppi) (call-sequence contract); s_to_c / c_to_s / s_ppo_to_ppi are under contract with numpy gather / scatter as assumed element-wise contracts (index tables pairwise distinct)',
                        'CNTO (number of connected output pins below k) monotone: induction lemma proved as base+step, then assumed',
                        'the memory-map hypotheses A2-A5 of the composition contract and single production / topological order of the op list (S2, S3) hold for real SimOps instances: bounded part (check_live_hypotheses, MapValid)',
                        'ghost values V equal the netlist semantics only if the op list is the translation of the netlist: bounded part',
